@@ -112,6 +112,9 @@ Inductive gval :=
 | VKeyQ (k : N)                                 (* batchKey(seq, hash): identified with its sequence number *)
 | VQDB (put_ok : bool)
 | VChainQ (id : N)                              (* a chain id (request Id / Sequencer.Id) *)
+| VSeqO (res err : gval)                        (* a sequencing layer that answers GetNextBatch with (res, err) *)
+| VStoreM (ok : bool)                           (* the manager's store, as far as retrieveBatch writes to it *)
+| VCursorQ (c : N)                              (* a batch cursor (res.BatchData), by id *)
 | VErrTag (name : string)                       (* a sentinel error with its identity (errors.Is) *)
 | VKey (k : Includer.mkey) | VKeyPrefix
 | VUnit.
@@ -318,6 +321,7 @@ Definition meth (v : gval) (m : string) (args : list gval) : res gval :=
       if m =? "GetDAIncludedHeight" then
         RIf (mhas mk i) (RRet (VTuple [VN (mget0 mk i); VBool true])) (RRet (VTuple [VN 0; VBool false]))
       else RFail ("dataCache." ++ m)
+  | VSeqO res err, [_; _] => if m =? "GetNextBatch" then RRet (VTuple [res; err]) else RFail ("sequencer." ++ m)
   | VBatchQ b, [] => if m =? "Hash" then RRet (VTuple [VHashQ b; VNil]) else RFail ("Batch." ++ m)
   | VDAErr e, [] => if m =? "Error" then RRet (VStr (Proxy.e_msg e)) else RFail ("error." ++ m)
   | VSent _ t, [] => if m =? "Error" then RRet (VStr t) else RFail ("error." ++ m)
@@ -375,6 +379,7 @@ Definition builtin (globals : env) (f : string) (args : list gval) : res gval :=
     | _ => RRet (VStr "")
     end
   else if f =? "hex.EncodeToString" then match args with [VHashQ b] => RRet (VHexQ b) | _ => RFail "hex.EncodeToString" end
+  else if f =? "convertBatchDataToBytes" then match args with [v] => RRet v | _ => RFail "convertBatchDataToBytes" end
   else if f =? "ds.NewKey" then match args with [v] => RRet v | _ => RFail "ds.NewKey" end
   else if f =? "fmt.Printf" then RRet VUnit
   else if f =? "proto.Marshal" then
@@ -533,6 +538,10 @@ Definition eff_meth (v : gval) (m : string) (args : list gval) : option (res (gv
   | VStoreI w, [_; VKey k; VLE64 x] =>
       if m =? "SetMetadata"
       then Some (RIf (iw_put_ok w) (RRet (VNil, [VEff "put" [VKey k; VN x]])) (RRet (VErr true, [])))
+      else None
+  | VStoreM ok, [_; VStr key; VCursorQ c] =>
+      if m =? "SetMetadata"
+      then Some (RIf ok (RRet (VNil, [VEff "put-meta" [VStr key; VCursorQ c]])) (RRet (VErr true, [])))
       else None
   | VQDB ok, [_; VKeyQ k; VEncQ b] =>
       if m =? "Put" then Some (RIf ok (RRet (VNil, [VEff "put" [VKeyQ k; VBatchQ b]])) (RRet (VErr true, []))) else None
